@@ -264,11 +264,12 @@ func c13SaveBlock(bs *store.BlockStore, chainID string, h int64, t time.Time) {
 // Replica.Crash copies the data directory while goleveldb may still be compacting in the
 // background (files vanish during the copy); retry until a consistent copy succeeds.
 func c13Restart(rep *Replica) {
-	for i := 0; i < 50; i++ {
+	var last interface{}
+	for i := 0; i < 200; i++ {
 		ok := func() (ok bool) {
 			defer func() {
-				if recover() != nil {
-					ok = false
+				if rr := recover(); rr != nil {
+					ok, last = false, rr
 				}
 			}()
 			rep.Crash()
@@ -277,9 +278,9 @@ func c13Restart(rep *Replica) {
 		if ok {
 			return
 		}
-		time.Sleep(20 * time.Millisecond)
+		time.Sleep(time.Duration(10+5*i) * time.Millisecond)
 	}
-	panic("c13: cannot restart the replica")
+	panic(fmt.Sprintf("c13-harness: cannot copy the data directory for a restart: %v", last))
 }
 
 
@@ -806,6 +807,7 @@ type c13Report struct {
 	Files       []string       `json:"files"`
 	DistinctBlk int            `json:"distinct_blocks"`
 	Panics      []string       `json:"panics"`
+	Aborts      []string       `json:"harness_aborts"`
 }
 
 func c13Main(args []string) int {
@@ -831,7 +833,12 @@ func c13Main(args []string) int {
 			// closes the app; the next call then fails) is reported, the other drivers still run
 			defer func() {
 				if rr := recover(); rr != nil {
-					rep.Panics = append(rep.Panics, fmt.Sprintf("chain %d: %v", *first+i, rr))
+					msg := fmt.Sprintf("chain %d: %v", *first+i, rr)
+					if strings.Contains(msg, "c13-harness:") {
+						rep.Aborts = append(rep.Aborts, msg) // harness-side failure, not the application
+					} else {
+						rep.Panics = append(rep.Panics, msg)
+					}
 				}
 			}()
 			chains = append(chains, c13RunChain(*seed, *first+i, *nblocks))
